@@ -37,3 +37,25 @@ Definition output_faulty (c : cfg) (input : str) (k : option nat) (budget : opti
 Definition output_root_faulty (c : cfg) (t : tree) (budget : nat) : str * res unit :=
   let '(cs, r) := output_root c t in
   let '(acc, ok) := write_all budget cs in (acc, if ok then r else Err EWriter).
+
+(* a writer that rejects exactly its k-th Write call (from 0) and accepts every other one:
+   a transient failure.  Empty writes never reach the writer. *)
+Fixpoint write_kth (k : nat) (cs : list chunk) : str * bool :=
+  match cs with
+  | [] => ([], true)
+  | CText [] :: r => write_kth k r
+  | CText s :: r =>
+      match k with
+      | 0 => ([], false)
+      | S k' => let '(a, ok) := write_kth k' r in (s ++ a, ok)
+      end
+  | CEnc _ _ :: _ => ([], false)
+  end.
+
+Definition output_faulty_kth (c : cfg) (input : str) (k : nat) : str * res unit :=
+  let '(cs, r) := output_md c input in
+  let '(acc, ok) := write_kth k cs in (acc, if ok then r else Err EWriter).
+
+Definition output_root_faulty_kth (c : cfg) (t : tree) (k : nat) : str * res unit :=
+  let '(cs, r) := output_root c t in
+  let '(acc, ok) := write_kth k cs in (acc, if ok then r else Err EWriter).
